@@ -101,6 +101,7 @@ struct Plan {
   status_mode: u8,     // 0 Strict, 1 SkipUnsupported, 2 SkipAll
   fail_fast: bool,
   rich: bool,          // use the rich generator for the remaining optional fields
+  expiry_in_vc_only: bool, // carry the expiration as vc.expirationDate without an exp claim (a form foreign issuers produce)
 }
 
 const BOUND_ISS: i64 = 1_700_000_000;
@@ -129,6 +130,7 @@ impl Plan {
       status_mode: rng.below(3) as u8,
       fail_fast: rng.bool(),
       rich: rng.chance(1, 3),
+      expiry_in_vc_only: false,
     }
   }
 
@@ -151,10 +153,10 @@ impl Plan {
     let lookup: u8 = match self.method_id_override {
       1 => self.method,
       2 => 1 - self.method,
-      3 => 2,
+      3 | 4 => 2, // 4: own DID + fragment of the listed foreign-DID method
       _ => match self.kid {
         0 => self.method,
-        1 => 2,
+        1 | 6 => 2, // 6: the document's own DID with the fragment of the foreign-DID method it lists
         4 => 4,
         _ => 3,
       },
@@ -332,7 +334,14 @@ fn build(rng: &mut Rng, p: &Plan) -> Built {
     _ => Some(json!({"id": format!("{}?index={}#linked", ISSUER, idx), "type": "RevocationBitmap2022", "revocationBitmapIndex": idx.to_string()})),
   };
   let custom = if p.rich { gen_custom_claims(rng) } else { Map::new() };
-  let claims = Value::Object(spec.claims_json(&custom));
+  let mut claims_map = spec.claims_json(&custom);
+  if p.expiry_in_vc_only {
+    if let Some(e) = spec.expiration {
+      claims_map.remove("exp");
+      claims_map["vc"]["expirationDate"] = json!(credgen::rfc3339(e));
+    }
+  }
+  let claims = Value::Object(claims_map);
 
   // header
   let method_frag = if p.method == 0 { "k1" } else { "k2" };
@@ -352,6 +361,9 @@ fn build(rng: &mut Rng, p: &Plan) -> Built {
     4 => {
       h.insert("kid".into(), json!(format!("{}#kf", FOREIGN)));
     }
+    6 => {
+      h.insert("kid".into(), json!(format!("{}#kf", ISSUER)));
+    }
     5 => {
       h.insert("kid".into(), json!("not a did url"));
     }
@@ -367,7 +379,7 @@ fn build(rng: &mut Rng, p: &Plan) -> Built {
     _ => {}
   }
   let header = Value::Object(h);
-  let signer = if p.kid == 4 && p.sig == 0 && p.method_id_override == 0 {
+  let signer = if ((p.kid == 4 || p.kid == 6) && p.sig == 0 && p.method_id_override == 0) || (p.method_id_override == 4 && p.sig == 0) {
     kf()
   } else {
     match (p.sig, p.method) {
@@ -403,6 +415,7 @@ fn build(rng: &mut Rng, p: &Plan) -> Built {
     1 => vo = vo.method_id(DIDUrl::parse(format!("{}#{}", ISSUER, method_frag)).unwrap()),
     2 => vo = vo.method_id(DIDUrl::parse(format!("{}#{}", ISSUER, if p.method == 0 { "k2" } else { "k1" })).unwrap()),
     3 => vo = vo.method_id(DIDUrl::parse(format!("{}#nope", ISSUER)).unwrap()),
+    4 => vo = vo.method_id(DIDUrl::parse(format!("{}#kf", ISSUER)).unwrap()),
     _ => {}
   }
   let mut o = JwtCredentialValidationOptions::new()
@@ -427,8 +440,8 @@ fn build(rng: &mut Rng, p: &Plan) -> Built {
 fn mutate_one(rng: &mut Rng, p: &mut Plan, which: u64) {
   match which {
     0 => p.sig = 1 + rng.below(3) as u8,
-    1 => p.kid = *rng.pick(&[1u8, 2, 3, 5]),
-    2 => p.method_id_override = 2 + rng.below(2) as u8,
+    1 => p.kid = *rng.pick(&[1u8, 2, 3, 5, 6, 6]),
+    2 => p.method_id_override = 2 + rng.below(3) as u8,
     3 => p.scope = 1 + rng.below(4) as u8,
     4 => p.kid = 4,
     5 => p.issuer_claim = 1 + rng.below(2) as u8,
@@ -465,6 +478,11 @@ fn mutate_one(rng: &mut Rng, p: &mut Plan, which: u64) {
       // legal scope that contains the method
       p.scope = if p.method == 0 { 1 + rng.below(2) as u8 } else { 3 };
     }
+    15 => {
+      // the expiration travels only inside vc (no exp claim): expired => must be rejected, otherwise either verdict
+      p.expiry_in_vc_only = true;
+      p.expiry = Some(*rng.pick(&[-1i64, -86_400, -1_000_000_000, 0, 1]));
+    }
     _ => {
       // neighbour of a revoked index stays valid
       p.status = 9;
@@ -494,6 +512,8 @@ impl Cx {
       u_false.clear();
     }
     let expect_accept = s_false.is_empty() && u_false.is_empty();
+    // an expiration carried only inside vc may be refused as inconsistent; if accepted it must not be dropped
+    let either = p.expiry_in_vc_only && p.expiry.is_some();
     let fail_fast = if p.fail_fast { FailFast::FirstError } else { FailFast::AllErrors };
     let case = json!({
       "plan": format!("{:?}", p), "token": b.token, "falsified_signature_side": s_false, "falsified_credential_side": format!("{:?}", u_false),
@@ -535,6 +555,10 @@ impl Cx {
         if self.rep.want_sample() {
           self.rep.sample(json!({"token": b.token, "verdict": "accepted", "plan": format!("{:?}", p)}));
         }
+      }
+      Ok(Err(_)) if either => {
+        self.rep.inc("rejected");
+        self.rep.inc("rejected:expiry-in-vc-only");
       }
       Ok(Err(err)) => {
         self.rep.inc("rejected");
@@ -647,11 +671,11 @@ fn main() {
     match i % 8 {
       0 => {}
       1 | 2 | 3 => {
-        let w = rng.below(15);
+        let w = rng.below(16);
         mutate_one(&mut rng, &mut p, w);
       }
       4 | 5 => {
-        let (a, b) = (rng.below(15), rng.below(15));
+        let (a, b) = (rng.below(16), rng.below(16));
         mutate_one(&mut rng, &mut p, a);
         mutate_one(&mut rng, &mut p, b);
       }
@@ -664,7 +688,7 @@ fn main() {
         }
       }
       _ => {
-        for w in 0..15 {
+        for w in 0..16 {
           if rng.chance(1, 5) {
             mutate_one(&mut rng, &mut p, w);
           }
